@@ -7,7 +7,7 @@ if-conversion, not path exploration and not execution: no repo code is run, no
 solver is called.  Anything outside the modelled fragment becomes ``Unk`` (a
 poison value); an obligation that depends on it is *undecided*, never violated.
 """
-import ast
+import ast, re
 import copy
 from fractions import Fraction
 
@@ -2892,6 +2892,10 @@ class Interp:
             if last in ('zeros', 'ones', 'empty'):
                 sh = args[0]
                 c = 1 if last == 'ones' else 0
+                if last == 'empty':
+                    # memory that nothing has written yet: whatever was there before - a value of its own, equal to nothing the analysis knows
+                    self._n_uninit = getattr(self, '_n_uninit', 0) + 1
+                    c = alg.sym('UNINIT#%d' % self._n_uninit)
                 dta_ = kw.get('dtype', args[1] if len(args) > 1 else None)
                 dt = _dtype_kind(dta_, 'f')
                 if isinstance(sh, Arr) and sh.ndim == 0 and sh.poly.is_const() and sh.poly.const_value().denominator == 1:
@@ -2905,11 +2909,11 @@ class Interp:
                     if sh == 0:
                         lab_ = 'pos#%d<empty>' % self._n_lists          # (an array of no elements: recognisable where it is merged with the general case)
                     self.axis_len[lab_] = sh
-                    r_ = Arr((lab_,), num(c), unit=num(1), fresh=True, dt=dt)
+                    r_ = Arr((lab_,), c if isinstance(c, Poly) else num(c), unit=num(1), fresh=True, dt=dt)
                     r_.dt_src = dta_.src if isinstance(dta_, _DtypeOf) else None
                     return r_
                 if isinstance(sh, Shape):
-                    r_ = Arr(sh.dims, num(c), unit=num(1), fresh=True, dt=dt)
+                    r_ = Arr(sh.dims, c if isinstance(c, Poly) else num(c), unit=num(1), fresh=True, dt=dt)
                     r_.dt_src = dta_.src if isinstance(dta_, _DtypeOf) else None
                     return r_
                 def lab_of(s_):
@@ -2938,7 +2942,7 @@ class Interp:
                         if lab is None:
                             return Unk('array shape %r' % (sh,), e)
                         dims.append(lab)
-                    return Arr(dims, num(c), unit=num(1), fresh=True, dt=dt)
+                    return Arr(dims, c if isinstance(c, Poly) else num(c), unit=num(1), fresh=True, dt=dt)
                 return Unk('array shape %r' % (sh,), e)
             if last in ('zeros_like', 'ones_like', 'empty_like'):
                 x = self._as_arr(args[0])
@@ -3790,6 +3794,10 @@ class Interp:
                 if _dtype_kind(t_, None) == 'i' and recv.poly.is_const() and recv.poly.const_value().denominator != 1:
                     import math as _math
                     return recv.with_(poly=num(_math.trunc(recv.poly.const_value())), dt='i')         # a fractional constant cast to an integer type is cut
+                m_ = re.match(r'^[<>=|]?([USa])(\d+)$', tn) if isinstance(tn, str) else None
+                if m_ and recv.mask is None:
+                    # a fixed-width string type: longer strings are cut to that many characters, silently
+                    return recv.with_(poly=alg.mk_fn('cut', P(recv.poly), C(int(m_.group(2)))), dt=None)
                 return recv.with_(dt=_dtype_kind(t_, None))
             if name == 'copy':
                 return recv.with_(dt=recv.dt if recv.dt in ('f', 'i') else 'inherit')
